@@ -175,6 +175,61 @@ impl Serialize for ShowAs {
     }
 }
 
+/// types that hand an iterator to `Serializer::collect_seq` / `collect_map`; the iterators' size hints are inexact
+/// (filter, take_while, chars, chained, flat_map), exact, or absent
+struct Evens(Vec<i64>);
+impl Serialize for Evens {
+    fn serialize<S: serde::Serializer>(&self, s: S) -> Result<S::Ok, S::Error> {
+        s.collect_seq(self.0.iter().filter(|x| *x % 2 == 0))
+    }
+}
+struct Letters(&'static str);
+impl Serialize for Letters {
+    fn serialize<S: serde::Serializer>(&self, s: S) -> Result<S::Ok, S::Error> {
+        s.collect_seq(self.0.chars())
+    }
+}
+struct Words(&'static str);
+impl Serialize for Words {
+    fn serialize<S: serde::Serializer>(&self, s: S) -> Result<S::Ok, S::Error> {
+        s.collect_seq(self.0.split(' '))
+    }
+}
+struct Until(Vec<u8>, u8);
+impl Serialize for Until {
+    fn serialize<S: serde::Serializer>(&self, s: S) -> Result<S::Ok, S::Error> {
+        s.collect_seq(self.0.iter().take_while(|x| **x != self.1))
+    }
+}
+struct Flat(Vec<Vec<u8>>);
+impl Serialize for Flat {
+    fn serialize<S: serde::Serializer>(&self, s: S) -> Result<S::Ok, S::Error> {
+        s.collect_seq(self.0.iter().flat_map(|v| v.iter()))
+    }
+}
+struct Generated(u32);
+impl Serialize for Generated {
+    fn serialize<S: serde::Serializer>(&self, s: S) -> Result<S::Ok, S::Error> {
+        let mut n = 0;
+        s.collect_seq(std::iter::from_fn(|| {
+            n += 1;
+            (n <= self.0).then_some(n)
+        }))
+    }
+}
+struct Positive(Vec<(&'static str, i32)>);
+impl Serialize for Positive {
+    fn serialize<S: serde::Serializer>(&self, s: S) -> Result<S::Ok, S::Error> {
+        s.collect_map(self.0.iter().filter(|(_, v)| *v > 0).map(|(k, v)| (*k, *v)))
+    }
+}
+struct Exact(Vec<u8>);
+impl Serialize for Exact {
+    fn serialize<S: serde::Serializer>(&self, s: S) -> Result<S::Ok, S::Error> {
+        s.collect_seq(self.0.iter().rev().skip(1))
+    }
+}
+
 #[derive(Serialize)]
 enum OddNames {
     #[serde(rename = "")]
@@ -288,6 +343,20 @@ pub fn cases() -> Vec<TypeCase> {
         case("collect_str: text that reads like a number", &vec![ShowAs("12"), ShowAs("1.5"), ShowAs("true"), ShowAs("")]),
         case("chrono date-time with a fixed offset", &chrono::DateTime::parse_from_rfc3339("2015-07-30T05:26:13+02:00").unwrap()),
         case("format_args through collect_str", &serde_json::json!({"k": format!("{}", format_args!("{}-{}", 2015, "07"))})),
+        case("collect_seq over a filter (upper bound above the count)", &Evens(vec![1, 2, 3, 4, 5, 6, 7])),
+        case("collect_seq over a filter that keeps nothing", &Evens(vec![1, 3, 5])),
+        case("collect_seq over a filter that keeps all", &Evens(vec![2, 4])),
+        case("collect_seq over chars of multi-byte text", &Letters("aé😀z")),
+        case("collect_seq over chars of empty text", &Letters("")),
+        case("collect_seq over split (no upper bound)", &Words("a bc  d")),
+        case("collect_seq over take_while", &Until(vec![1, 2, 3, 4, 5], 3)),
+        case("collect_seq over take_while that stops at once", &Until(vec![1, 2], 1)),
+        case("collect_seq over flat_map", &Flat(vec![vec![1, 2], vec![], vec![3]])),
+        case("collect_seq over from_fn (no hint at all)", &Generated(5)),
+        case("collect_seq over an exact-size adaptor", &Exact(vec![1, 2, 3, 4])),
+        case("collect_seq inside a struct inside a list", &vec![Some(Evens(vec![1, 2, 3])), None]),
+        case("collect_map over a filter", &Positive(vec![("a", 1), ("b", -1), ("c", 0), ("d", 4)])),
+        case("collect_map over a filter that keeps nothing", &Positive(vec![("a", -1)])),
         case("variant renamed to the empty string", &OddNames::Empty(1, 2)),
         case("variant renamed to a blank", &OddNames::Blank { x: 1 }),
         case("unit struct", &UnitStruct),
